@@ -68,6 +68,10 @@ func smartDateParseWrapper(format string, tz *time.Location, dateStage KeyBuilde
 		var atomicFormat atomic.Value
 		atomicFormat.Store("")
 
+		// What static analysis sees when it probes a non-constant date with its empty context
+		// (eg. "2024-" for "2024-{1}"). That text is not a date of the input: its format must not be remembered
+		probeTime, isConstTime := EvalStaticStage(dateStage)
+
 		return KeyBuilderStage(func(context KeyBuilderContext) string {
 			strTime := dateStage(context)
 			if strTime == "" { // This is important for future optimization efforts (so an empty string won't be remembered as a valid format)
@@ -83,7 +87,9 @@ func smartDateParseWrapper(format string, tz *time.Location, dateStage KeyBuilde
 				if err != nil {
 					return ErrorParsing
 				}
-				atomicFormat.Store(liveFormat)
+				if isConstTime || strTime != probeTime {
+					atomicFormat.Store(liveFormat)
+				}
 			}
 
 			val, err := time.ParseInLocation(liveFormat, strTime, tz)
